@@ -445,6 +445,11 @@ def fam_arc_core(tier="quick"):
     # last (the result of a drop says whether it destroyed the value)
     L.append(prog_line("arD0", ["K"], [["ac 0 0 1", "ac 0 0 2", "ac 0 0 3", "sp 1", "sp 2", "sp 3", "ad 0 0"], ["ad 0 1"], ["ad 0 2"], ["ad 0 3"]]))
     L.append(prog_line("arD1", ["K"], [["ac 0 0 1", "ac 0 0 2", "ac 0 0 3", "ac 0 0 4", "sp 1", "sp 2", "ad 0 0", "ad 0 4"], ["ad 0 1", "ad 0 3"], ["ad 0 2"]]))
+    # ordering through the reference count: a get_mut / try_unwrap that finds the handle unique, and the
+    # final drop, acquire the drops of the other handles (the relaxed flag orders nothing by itself)
+    L.append(prog_line("arH0", ["K", "U", "A0"], [["ac 0 0 2", "sp 1", "aw 2 1 rlx", "ag 0 0", "cw 1", "jn 1", "ad 0 0"], ["cw 1", "ad 0 2", "st 2 1 rlx"]]))
+    L.append(prog_line("arH1", ["K", "U", "A0"], [["ac 0 0 2", "sp 1", "aw 2 1 rlx", "au 0 0", "cw 1", "jn 1"], ["cw 1", "ad 0 2", "st 2 1 rlx"]]))
+    L.append(prog_line("arH2", ["K", "U", "A0"], [["ac 0 0 2", "sp 1", "aw 2 1 rlx", "ad 0 0", "cw 1", "jn 1"], ["cw 1", "ad 0 2", "st 2 1 rlx"]]))
     L.append(prog_line("arD2", ["K"], [["ac 0 0 1", "ac 0 0 2", "ac 0 0 3", "sp 1", "sp 2", "sp 3", "an 0 0", "ad 0 0"], ["ad 0 1"], ["ad 0 2"], ["ad 0 3"]]))
     return L
 
@@ -458,6 +463,20 @@ def fam_chain_spin():
         L.append(prog_line(f"spC{o_st}0", ["A0", "A0"], [["sp 1", "sp 2", f"aw 1 1 {o_ld}", "jn 1", "jn 2"], [f"aw 0 1 {o_ld}", f"st 1 1 {o_st}"], [f"st 0 1 {o_st}"]]))
         L.append(prog_line(f"spC{o_st}1", ["A0", "A0"], [["sp 1", "sp 2", f"aw 1 1 {o_ld}", "jn 1", "jn 2"], [f"aw 0 1 {o_ld}", f"st 1 1 {o_st}"], ["yl", f"st 0 1 {o_st}"]]))
     L.append(prog_line("spC3", ["A0", "A0", "A0"], [["sp 1", "sp 2", "sp 3", "aw 2 1 acq", "jn 1", "jn 2", "jn 3"], ["aw 1 1 acq", "st 2 1 rel"], ["aw 0 1 acq", "st 1 1 rel"], ["st 0 1 rel"]], mb=400))
+    return L
+
+
+def fam_spin_litmus():
+    """A thread that reads, yields and reads again while two threads store to the same atomic with no
+    happens-before between the stores (the second store is triggered through a relaxed flag, so it EXECUTES
+    later but is not ordered later): the value read before the yield may legally be read again after it when
+    the other store is earlier in modification order. Litmus-shaped (main only spawns and joins): oracle RC11."""
+    L = []
+    for o in ("rlx", "acq"):
+        L.append(prog_line(f"spL{o}0", ["A0", "A0"], [["sp 1", "sp 2", "sp 3", "jn 1", "jn 2", "jn 3"],
+                                                     ["st 0 1 rlx", "st 1 1 rlx"], [f"ld 1 {o}", "st 0 2 rlx"], ["ld 0 rlx", "yl", "ld 0 rlx"]]))
+    # (with TWO yields in the reading thread loom's yield rule -- not before another thread has run -- excludes
+    # an outcome RC11 allows: three reads of the initial value while another thread reads the flag; not included)
     return L
 
 
@@ -596,6 +615,11 @@ def fam_bound_core(tier="quick"):
     h0 = ["rv 0", "trv 0"]
     L += exhaustive("pbH", ["H"], [h0, ["sd 0 1", "sd 0 1 ; sd 0 2"]], 2, main_post=["drx 0"])
     L += exhaustive("pbN", ["N", "A0"], [["nw 0", "ld 1 sc"], ["nn 0", "st 1 1 sc"]], 2)
+    # three runnable threads of read-modify-writes: alternatives at a branch point that cost the same
+    # number of preemptions must all stay available
+    L.append(prog_line("pbR0", ["A0", "A0"], [["sp 1", "sp 2", "rmw 1 swap 2 sc", "rmw 0 add 0 sc", "jn 1", "jn 2"], ["rmw 1 add 0 sc"], ["rmw 1 add 1 sc", "rmw 0 add 1 sc"]]))
+    L.append(prog_line("pbR1", ["A0", "A0"], [["sp 1", "sp 2", "rmw 0 add 1 sc", "rmw 1 add 1 sc", "jn 1", "jn 2"], ["rmw 1 add 10 sc", "rmw 0 add 10 sc"], ["rmw 0 add 100 sc"]]))
+    L.append(prog_line("pbR2", ["A0"], [["sp 1", "sp 2", "sp 3", "rmw 0 add 1 sc", "jn 1", "jn 2", "jn 3"], ["rmw 0 add 10 sc"], ["rmw 0 add 100 sc"], ["rmw 0 add 1000 sc"]]))
     return L
 
 
@@ -885,6 +909,21 @@ def fam_race_core(tier="quick"):
     add("H2f", ["U", "A0", "A0"], [["cw 0", "st 1 1 rel"], ["aw 1 1 rlx", "fn ar", "rmw 2 add 1 rlx"], ["aw 2 1 rlx", "fn acq", "cr 0"]])
     add("H2f", ["U", "A0", "A0"], [["cw 0", "fn rel", "st 1 1 rlx"], ["aw 1 1 rlx", "fn sc", "st 2 1 rlx"], ["aw 2 1 rlx", "fn sc", "cr 0"]])
     add("H2u", ["A0", "A0", "A0"], [["wm 0 9", "st 1 1 rel"], ["aw 1 1 rlx", "fn ar", "st 2 1 rlx"], ["aw 2 1 acq", "usl 0"]])
+    # an access made right AFTER a releasing operation is not covered by it: the acquirer's conflicting access
+    # races with it (a read as the first operation after a release store / unlock / send / notify)
+    for so, lo in (("rel", "acq"), ("sc", "sc")):
+        add("AfR", ["U", "A0"], [[f"st 1 1 {so}", "cr 0"], [f"aw 1 1 {lo}", "cw 0"]])
+        add("AfR", ["U", "A0"], [[f"rmw 1 add 1 {so}", "cr 0"], [f"aw 1 1 {lo}", "cw 0"]])
+    add("AfM", ["U", "M", "A0"], [["lk 1", "st 2 1 sc", "ul 1", "cr 0"], ["aw 2 1 sc", "lk 1", "cw 0", "ul 1"]])
+    add("AfH", ["U", "H"], [["sd 1 5", "cr 0"], ["rv 1", "cw 0"]])
+    add("AfN", ["U", "N"], [["nn 1", "cr 0"], ["nw 1", "cw 0"]])
+    add("AfU", ["A0", "A0"], [["st 1 1 rel", "usl 0"], ["aw 1 1 acq", "wm 0 9"]])
+    # the same with the access BEFORE the release: ordered
+    add("BfR", ["U", "A0"], [["cr 0", "st 1 1 rel"], ["aw 1 1 acq", "cw 0"]])
+    # Arc::get_mut returning the unique handle acquires the drops of the other handles: the former owner's
+    # accesses happen-before the exclusive access (the flag is relaxed: it orders nothing by itself)
+    L.append(prog_line(f"rcGm{n[0]}", ["K", "U", "A0"], [["ac 0 0 2", "sp 1", "aw 2 1 rlx", "ag 0 0", "cw 1", "jn 1", "ad 0 0"], ["cw 1", "ad 0 2", "st 2 1 rlx"]])); n[0] += 1
+    L.append(prog_line(f"rcGm{n[0]}", ["K", "U", "A0"], [["ac 0 0 2", "sp 1", "aw 2 1 rlx", "au 0 0", "cw 1", "jn 1"], ["cw 1", "ad 0 2", "st 2 1 rlx"]])); n[0] += 1
     # locks
     add("Mx", ["U", "M"], [["lk 1", "cw 0", "ul 1"], ["lk 1", "cr 0", "ul 1"]])
     add("Mx", ["U", "M"], [["lk 1", "cw 0", "ul 1"], ["lk 1", "cw 0", "ul 1"], ["lk 1", "cr 0", "ul 1"]])
